@@ -91,25 +91,30 @@ let show_fout = function
 let is_file store = String.length store = 6 && String.sub store 0 4 = "file"
 let file_stepper store = file_step true (store.[4] = '1') (store.[5] = '1')
 
+(* third component: the files the model expects on disk after the history -- file store:
+   working-directory path = hash,length of the regular files; OCI store: blob file = hash,length *)
+let show_disk l = "K:" ^ String.concat ";" (List.sort compare l)
 let run_store store ops =
   if is_file store then begin
-    let (_, outs) = runf (file_stepper store) file_init ops in
-    let l = List.map show_fout outs in (l, l)
+    let (st, outs) = runf (file_stepper store) file_init ops in
+    let l = List.map show_fout outs in
+    (l, l, show_disk (List.map (fun (p, c) -> Printf.sprintf "%d=%d,%d" (ii p) (ii c.b_hash) (ii c.b_len)) st.f_disk))
   end else
   match store with
   | "mem" ->
     let (_, outs) = run mem_step mem_init ops in
     let (_, souts) = run mspec_step mspec_init ops in
-    (List.map show_out outs, List.map show_out souts)
+    (List.map show_out outs, List.map show_out souts, "K:")
   | "oci" ->
     let u = build_u ops in
-    let (_, outs) = run oci_step oci_init ops in
+    let (st, outs) = run oci_step oci_init ops in
     (* the specification is stated for canonical histories (one descriptor per digest) *)
     let canonical = List.for_all (function
         | Push (d, _) | Fetch d | Exists d | Preds d | Delete d | Tag (d, _) -> gkey_eqb (gk d) (u d.d_dig)
         | _ -> true) ops in
     let (_, souts) = if canonical then run (ospec_step u) ospec_init ops else ((), outs) |> fun (_, o) -> (ospec_init, o) in
-    (List.map show_out outs, List.map show_out souts)
+    (List.map show_out outs, List.map show_out souts,
+     show_disk (List.map (fun (g, c) -> Printf.sprintf "%d=%d,%d" (ii g) (ii c.b_hash) (ii c.b_len)) st.o_blobs))
   | _ -> failwith "store"
 
 (* ---- serialisability search over the extracted sequential model ----
@@ -192,9 +197,13 @@ let () =
     match List.filter (fun t -> t.[0] <> '#') (split_ws l) with
     | id :: "seq" :: store :: toks ->
       (try
+         (* a final token K asks for the expected on-disk files as one more output *)
+         let want_disk = (match List.rev toks with "K" :: _ -> true | _ -> false) in
+         let toks = if want_disk then List.rev (List.tl (List.rev toks)) else toks in
          let ops = List.map parse_op toks in
-         let (outs, souts) = run_store store ops in
-         Printf.printf "%s %s%s\n" id (String.concat "|" outs) (if outs = souts then "" else " SPECDIFF " ^ String.concat "|" souts)
+         let (outs, souts, disk) = run_store store ops in
+         let tail = if want_disk then [disk] else [] in
+         Printf.printf "%s %s%s\n" id (String.concat "|" (outs @ tail)) (if outs = souts then "" else " SPECDIFF " ^ String.concat "|" souts)
        with Failure m -> Printf.printf "%s BADCASE %s\n" id m)
     | id :: "lin" :: store :: nprobe :: toks ->
       (try
